@@ -14,16 +14,17 @@ from . import C06
 
 LEVEL_TEXT = ('static analysis: (D1) do_target interpreted on symbolic baits: works on a copy, keeps a bait <=> start != end, calls '
               'subdivide(avg_size, min_size 0) exactly when do_split, and afterwards stores into no column but `gene` (annotation through '
-              "into_ranges(..., 'gene', '-'), shortened labels); shorten_labels, interpreted exhaustively on all label sequences of length <= 4 "
-              'over three label shapes, yields one label per input label; (D2) get_antitargets shrinks the accessible regions by 2*INSERT_SIZE = '
-              '500, pads the targets by 500 before subtracting them, subdivides by (average, minimum) and names every bin Antitarget; the default'
-              ' minimum is 2*int(avg*2^MIN_REF_COVERAGE) (constants folded from params.py); (D3) the padded targets overlap by construction: '
-              "subtract()'s non-nested-subtrahend precondition is established (rule of C06-D1), and merge() itself groups by the stated predicate"
-              ' and leaves nothing unmerged on its fast path (rules of C06-D3 / D3b), and subtract() itself is exact on literal tables, keeping '
-              'the accessible regions of untargeted contigs whole (C06-D1b); (D4) a region is binned <=> span >= minimum, pieces chain from start'
-              ' to end (rule of C06-D5); (D5) drop_noncanonical_contigs keeps an accessible contig <=> it is targeted or canonically named (when '
-              "some target is canonical), else <=> targeted or not longer-named than the longest targeted one. Does not decide 'at most 1.5x the "
-              "average size', coverage of every off-target stretch, or the chromosome-length heuristic.")
+              "into_ranges(..., 'gene', '-') whose result is labelled the way the real function labels it, so a store into the table that just "
+              'lost its zero-width baits is judged by label, shortened labels); shorten_labels, interpreted exhaustively on all label sequences '
+              'of length <= 4 over three label shapes, yields one label per input label; (D2) get_antitargets shrinks the accessible regions by '
+              '2*INSERT_SIZE = 500, pads the targets by 500 before subtracting them, subdivides by (average, minimum) and names every bin '
+              'Antitarget; the default minimum is 2*int(avg*2^MIN_REF_COVERAGE) (constants folded from params.py); (D3) the padded targets '
+              "overlap by construction: subtract()'s non-nested-subtrahend precondition is established (rule of C06-D1), and merge() itself "
+              'groups by the stated predicate and leaves nothing unmerged on its fast path (rules of C06-D3 / D3b), and subtract() itself is '
+              'exact on literal tables, keeping the accessible regions of untargeted contigs whole (C06-D1b); (D4) a region is binned <=> span >='
+              ' minimum, pieces chain from start to end (rule of C06-D5); (D5) drop_noncanonical_contigs keeps an accessible contig <=> it is '
+              'targeted or canonically named (when some target is canonical), else <=> targeted or not longer-named than the longest targeted '
+              "one. Does not decide 'at most 1.5x the average size', coverage of every off-target stretch, or the chromosome-length heuristic.")
 TECHNIQUE = "abstract interpretation with recorded method summaries (argument / order capture); column-write-set lint; small-scope exhaustive interpretation of shorten_labels; shared precondition and chaining rules"
 
 
